@@ -25,6 +25,12 @@ Arguments that fail while they are consumed (addlist / update / update_extend / 
 before its first item, after one, after two) are operations of the menu: the failure must reach the caller, the object
 must equal the list of pairs after some prefix of the produced items, and the search continues from that state.
 
+Operations that take an argument object the caller keeps (update / update_extend / |= / construction with an OMD, dict,
+keys()-object or list of pairs; addlist with a list) are followed by an argument oracle: the call leaves the argument as
+it was, and afterwards growing / shrinking / clearing the argument does not move the mapping, nor the other way round
+(two OMDs are compared as complete objects).  Mappings derived by counts / inverted / sorted / sortedvalues are checked
+the same way in the read battery.  A fourth search uses tuple keys and values (empty tuple, 2-tuple).
+
 A directed part (run_cyclic, exhaustive over its own small space, not part of the BFS because such values are not
 hashable state components) stores values that refer back to the mapping - the mapping itself, a list / tuple / dict
 holding it, a child mapping with a parent reference, one list shared by several pairs - and compares, by object
@@ -56,6 +62,13 @@ EXPLORE_UPDATE_EXTEND_KWARGS = True
 
 class Budget(BaseException):
     pass
+
+
+class _Used:
+    """Stands for a successor object that the argument checks have used up; only its canonical key is left."""
+
+    def __init__(self, key):
+        self.key = key
 
 
 def _on_timer(signum, frame):
@@ -263,7 +276,7 @@ def model_apply(P, op):
 # ----------------------------------------------------------------------------------------------------
 # implementation side
 
-def operand(shape, pairs, cls, self_obj=None):
+def _operand(shape, pairs, cls, self_obj=None):
     pairs = [tuple(p) for p in pairs]
     if shape == 'dict':
         return dict(pairs)
@@ -289,7 +302,7 @@ def operand(shape, pairs, cls, self_obj=None):
     raise AssertionError(shape)
 
 
-def values_arg(shape, vals):
+def _values_arg(shape, vals):
     vals = list(vals)
     if shape in ('list', 'empty-list'):
         return vals
@@ -307,6 +320,78 @@ def values_arg(shape, vals):
     raise AssertionError(shape)
 
 
+# Arguments the caller still holds after the call (the other shapes are consumed / read-only views)
+ARG_KEPT = ('omd', 'same', 'dict', 'keysobj', 'pairs', 'listpairs')
+
+
+def arg_snap(shape, a):
+    """Address-free form of an argument object (for OMDs the complete object)."""
+    try:
+        if shape in ('omd', 'same'):
+            return canon(a)
+        if shape == 'keysobj':
+            return plain(list(a._d.items()))
+        if shape == 'dict':
+            return plain(list(a.items()))
+        return plain(a)
+    except Exception as e:
+        return '<argument unreadable: %s>' % type(e).__name__
+
+
+def _quiet(fn, *a):
+    try:
+        fn(*a)
+    except Exception:
+        pass
+
+
+def omd_mutations(o):
+    """Groups of in-place operations on an OMD (each group is followed by one comparison of the *other* object)."""
+    def keys():
+        try:
+            return list(dict.keys(o))
+        except Exception:
+            return []
+
+    def grow():
+        for k in keys():
+            _quiet(o.add, k, 'x')
+            _quiet(o.addlist, k, ['y'])
+        _quiet(o.update_extend, [(k, 'w') for k in keys()])
+
+    def shrink():
+        for k in keys():
+            _quiet(o.poplast, k)
+            _quiet(o.poplast, k)
+            _quiet(o.poplast, k)
+        _quiet(o.popitem)
+        for k in keys():
+            _quiet(o.__setitem__, k, 'z')
+        _quiet(o.clear)
+    return grow, shrink
+
+
+def plain_mutations(shape, a):
+    def grow():
+        if shape in ('dict', 'keysobj'):
+            t = a if shape == 'dict' else a._d
+            for k in list(t):
+                t[k] = 'x'
+            t['zz'] = 'x'
+        elif shape == 'listpairs':
+            for p in a:
+                p[1] = 'x'
+            a.append(['zz', 'x'])
+        elif shape == 'pairs':
+            a.append(('zz', 'x'))
+        else:
+            a.append('x')
+
+    def shrink():
+        (a._d if shape == 'keysobj' else a).clear()
+    return grow, shrink
+
+
 def copy_fn(op):
     name = op[0]
     if name == 'copy':
@@ -320,9 +405,22 @@ def copy_fn(op):
     raise AssertionError(op)
 
 
-def impl_apply(d, op, cls):
-    """Apply op to the real object.  Returns (result, successor object)."""
+def impl_apply(d, op, cls, keep=None):
+    """Apply op to the real object.  Returns (result, successor object).  keep (a list) receives
+    (shape, argument object, its snapshot before the call) when the operation takes an argument the caller still holds."""
     name = op[0]
+
+    def operand(shape, pairs, cls, self_obj=None):
+        a = _operand(shape, pairs, cls, self_obj)
+        if keep is not None and shape in ARG_KEPT:
+            keep.append((shape, a, arg_snap(shape, a)))
+        return a
+
+    def values_arg(shape, vals):
+        a = _values_arg(shape, vals)
+        if keep is not None and shape == 'list':
+            keep.append((shape, a, arg_snap(shape, a)))
+        return a
     try:
         if name == 'new':
             kw = dict(op[3])
@@ -706,7 +804,7 @@ class Spec:
         try:
             d, P = self.build(hist)
             V, ok, label, d2, _ = self.step(d, P, op, hist, battery)
-            key = canon(d2) if ok else None
+            key = (d2.key if isinstance(d2, _Used) else canon(d2)) if ok else None
             return (op, key, label, V)
         except Budget:
             self.mark_hung(opsig(op))
@@ -739,7 +837,8 @@ class Spec:
         tags = op_tags(P, op)
         is_copy = op[0] in COPY_OPS
         k_src = canon(d) if is_copy else None
-        r_i, d2 = impl_apply(d, op, cls)
+        kept = []
+        r_i, d2 = impl_apply(d, op, cls, kept)
         cands = model_apply(P, op)
         (r_m, P2), matched = self.choose(cands, d2)
         label = (osig, r_i[0] if r_i[0] == 'ok' else r_i[1])
@@ -765,7 +864,37 @@ class Spec:
             ok = self.copy_checks(d, d2, k_src, P, op, hist, bad)
         if ok and battery:
             self.battery(d2, P2, bad)
+        if ok and kept:
+            # last: it uses up d2 (the callers keep only canon(d2), taken here before)
+            key = canon(d2)
+            ok = self.argument_checks(d2, key, kept[0], bad)
+            return V, ok, label, _Used(key), P2
         return V, ok, label, d2, P2
+
+    # ------------------------------------------------------------------------------------------
+    def argument_checks(self, d2, key, kept, bad):
+        """The argument object of add-like / update-like operations stays the caller's: the call leaves it as it was,
+        and afterwards the mapping and the argument are independent objects (operations on one never show in the reads
+        of the other).  Destroys d2 and the argument."""
+        shape, arg, before = kept
+        is_omd = shape in ('omd', 'same')
+        if arg_snap(shape, arg) != before:
+            bad('op', 'argument-changed', before, arg_snap(shape, arg))
+            return False
+        for mutate in (omd_mutations(arg) if is_omd else plain_mutations(shape, arg)):
+            _quiet(mutate)
+            if not is_omd and mutate.__name__ == 'grow':
+                continue                                   # one comparison after both groups
+            if canon(d2) != key:
+                bad('op', 'not-independent-of-argument(mapping-moved)', key, canon(d2))
+                return False
+        before = arg_snap(shape, arg)
+        for mutate in omd_mutations(d2):
+            _quiet(mutate)
+            if arg_snap(shape, arg) != before:
+                bad('op', 'not-independent-of-argument(argument-moved)', before, arg_snap(shape, arg))
+                return False
+        return True
 
     # ------------------------------------------------------------------------------------------
     def copy_checks(self, src, new, k_src, P, op, hist, bad):
@@ -952,6 +1081,28 @@ class Spec:
             d.todict()['zz'] = 1
             return canon(d) == k0
         R('todict-result-is-a-copy', alias_todict, True)
+
+        # ---- a mapping derived from this one (counts / inverted / sorted / sortedvalues) is the caller's own object
+        def derived():
+            mine = {id(dict.__getitem__(d, k)) for k in dict.keys(d)} | {id(c) for c in _walk(d, NEXT)[0] or ()}
+            mine |= {id(cs) for cs in d._map.values()} | {id(d._map), id(d.root)}
+            for make in (d.counts, d.inverted, d.sorted, d.sortedvalues, lambda: d.sorted(key=byval, reverse=True)):
+                try:
+                    r = make()
+                    if type(r) is not cls:
+                        continue                           # reported by the read itself
+                except Exception:
+                    continue
+                if r is d:
+                    return 'the mapping itself'
+                its = {id(dict.__getitem__(r, k)) for k in dict.keys(r)} | {id(c) for c in _walk(r, NEXT)[0] or ()}
+                its |= {id(cs) for cs in r._map.values()} | {id(r._map), id(r.root)}
+                if its & mine:
+                    return 'shares cells / value lists with the mapping'
+                for mutate in omd_mutations(r):
+                    _quiet(mutate)
+            return canon(d) == k0
+        R('derived-mapping-is-independent', derived, True)
         if canon(d) != k0:
             bad('read', 'reads-changed-the-state', k0, canon(d))
 
@@ -1405,7 +1556,10 @@ def configs(tier):
     kw = ('dictutils.OrderedMultiDict', ('a', 'b'), (0, 1), (0, 1, None), L, True)
     # None as key *and* as value: sentinel / fill values of the implementation must not be confused with data
     nonekv = ('dictutils.OrderedMultiDict', (None, 'a'), (None, 1), (None, 1), 3 if tier == 'quick' else 4, False)
-    out = [main, kw, nonekv]
+    # keys / values of another class: tuples (empty, several items - "%" and "*" treat them as argument lists) that are
+    # also falsy / equal to one another as key and value
+    tup = ('dictutils.OrderedMultiDict', ((), (1, 2)), ((), (1, 2)), ((), (1, 2)), 3 if tier == 'quick' else 4, False)
+    out = [main, kw, nonekv, tup]
     if tier == 'quick':
         out.append(('urlutils.QueryParamDict', (0, 1, 2), (0, 1), (0, 1), 3, False))
     else:
@@ -1470,7 +1624,7 @@ def _run(ctx, parts, scratch):
     cov['values_referring_back_to_the_mapping'] = run_cyclic(ctx)
     cov['keyword_arguments_under_every_name'] = run_kwnames(ctx)
     ctx.assumptions += [
-        'keys/values are ints, short strings and None with well-behaved __eq__/__hash__',
+        'keys/values are ints, short strings, None and tuples of ints with well-behaved __eq__/__hash__',
         'popitem(): removing the last pair, or some present key with all its pairs, are both accepted (DESIGN 5.1)',
         'update_extend(self): extending by the visible items or by all pairs are both accepted',
         'update_extend(E, **kwargs), update(self, **kwargs) and the non in-place | operator are not among the operation '
@@ -1482,6 +1636,10 @@ def _run(ctx, parts, scratch):
         'an operation is enabled only when every successor the statement allows holds <= L pairs '
         '(and, in the int-key searches, only values of the domain: setdefault(k) without default needs k present)',
         'operands that are OMDs are built with add() on the class under check',
+        'argument oracle: after a call the mapping and the argument object (OMD, dict, keys()-object, list of pairs, '
+        'list of values) are independent - in-place operations on one do not show in the other; the second object is '
+        'mutated by a fixed battery (add/addlist/update_extend, poplast/popitem/set/clear), it is not a second '
+        'dimension of the BFS',
         'an argument iterable that fails while it is consumed: the failure must reach the caller; the mapping may hold '
         'any prefix of the items produced before the failure (all-or-nothing and item-by-item are both accepted)',
         'values referring back to the mapping: ==, !=, sorted, sortedvalues, inverted and repr are not read on them (a '
